@@ -50,6 +50,7 @@ const (
 	c18SrvEcho = iota // answer (possibly held / reordered / split by the stream script)
 	c18SrvDrop        // never answer
 	c18SrvSlow        // answer after the call's time-out has passed
+	c18SrvGate        // answer only once the scenario has opened the gate (keeps the request "in flight" at the store)
 	c18SrvKill        // directed scenarios: never answer, and end the stream with an error as soon as this request arrives
 )
 
@@ -60,6 +61,7 @@ type c18Item struct {
 	kind      int
 	key       []byte
 	call      *c18Call
+	gated     bool       // held until run.gateOpen
 	exec      *c18RLExec // ResolveLock: the execution record, stamped when the answer goes out
 	notBefore time.Time
 }
@@ -96,6 +98,7 @@ type c18SrvPlan struct {
 	downMode    int           // what occupies the address while the server is down during a restart
 	closeOnDown bool          // the client's pool is closed when the server goes down, so the connection is re-created meanwhile
 	stalePct    int           // percentage of response messages that additionally carry a stale (re-delivered / never used) id
+	gateAll     bool          // every echo request is held until the gate opens
 }
 
 type c18Server struct {
@@ -370,7 +373,9 @@ func (st *c18Stream) flusher(s *c18Server, rng *rand.Rand, done <-chan struct{})
 			now := time.Now()
 			var ready, rest []c18Item
 			for _, it := range st.held {
-				if it.notBefore.IsZero() || now.After(it.notBefore) {
+				if it.gated && !s.run.gateOpen.Load() {
+					rest = append(rest, it)
+				} else if it.notBefore.IsZero() || now.After(it.notBefore) {
 					ready = append(ready, it)
 				} else {
 					rest = append(rest, it)
@@ -453,6 +458,12 @@ func (s *c18Server) BatchCommands(ss tikvpb.Tikv_BatchCommandsServer) error {
 				st.received = append(st.received, c)
 				if c.cancelMode == c18CancelOnRecv {
 					c.doCancel()
+				}
+				if c.srvMode == c18SrvGate || (s.plan.gateAll && c.srvMode == c18SrvEcho) {
+					it.gated = true
+					hold = append(hold, it)
+					s.run.count("srv_gated", 1)
+					continue
 				}
 				switch c.srvMode {
 				case c18SrvKill:
